@@ -1,0 +1,232 @@
+//go:build verif
+
+// Machine-checked contracts for package lexer (comment-only; see /verif/DESIGN.md).
+// Nothing in this file is compiled into the package: it holds only //@ lines
+// read by /verif/govc, which generates proof obligations from the real SSA of
+// the functions named here and discharges them with z3 / cvc5.
+
+package lexer
+
+// ---- lexical grammar as recursive specification functions -----------------
+
+//@ spec func isNameStart(c int) bool { return c == '_' || ('A' <= c && c <= 'Z') || ('a' <= c && c <= 'z') }
+//@ spec func isNameCont(c int) bool { return isNameStart(c) || ('0' <= c && c <= '9') }
+//@ spec func nameEnd(body []byte, i int) int {
+//@     if i < len(body) && isNameCont(int(body[i])) { return nameEnd(body, i+1) }
+//@     return i
+//@ }
+//@ spec func isDigitAt(body []byte, i int) bool { return 0 <= i && i < len(body) && '0' <= body[i] && body[i] <= '9' }
+//@ spec func digitsEnd(body []byte, i int) int {
+//@     if isDigitAt(body, i) { return digitsEnd(body, i+1) }
+//@     return i
+//@ }
+//@ spec func byteAt(body []byte, i int) int {
+//@     if 0 <= i && i < len(body) { return int(body[i]) }
+//@     return -1
+//@ }
+//@ spec func afterSign(body []byte, i int) int {
+//@     if byteAt(body, i) == '-' { return i + 1 }
+//@     return i
+//@ }
+//@ spec func intPartEnd(body []byte, i int) int {
+//@     if byteAt(body, i) == '0' { if isDigitAt(body, i+1) { return -1 }; return i + 1 }
+//@     if isDigitAt(body, i) { return digitsEnd(body, i) }
+//@     return -1
+//@ }
+//@ spec func fracEnd(body []byte, i int) int {
+//@     if byteAt(body, i) == '.' { if isDigitAt(body, i+1) { return digitsEnd(body, i+1) }; return -1 }
+//@     return i
+//@ }
+//@ spec func expSignEnd(body []byte, i int) int {
+//@     if byteAt(body, i) == '+' || byteAt(body, i) == '-' { return i + 1 }
+//@     return i
+//@ }
+//@ spec func expEnd(body []byte, i int) int {
+//@     if byteAt(body, i) == 'E' || byteAt(body, i) == 'e' {
+//@         if isDigitAt(body, expSignEnd(body, i+1)) { return digitsEnd(body, expSignEnd(body, i+1)) }
+//@         return -1
+//@     }
+//@     return i
+//@ }
+//@ spec func numberEnd(body []byte, start int) int {
+//@     ip := intPartEnd(body, afterSign(body, start))
+//@     if ip < 0 { return -1 }
+//@     fe := fracEnd(body, ip)
+//@     if fe < 0 { return -1 }
+//@     return expEnd(body, fe)
+//@ }
+//@ spec func numberIsFloat(body []byte, start int) bool {
+//@     ip := intPartEnd(body, afterSign(body, start))
+//@     fe := fracEnd(body, ip)
+//@     return byteAt(body, ip) == '.' || byteAt(body, fe) == 'E' || byteAt(body, fe) == 'e'
+//@ }
+
+// Ignored tokens: BOM, white space, line terminators, commas, comments.
+//@ spec func isIgnoredCode(c int) bool { return c == 0xFEFF || c == 9 || c == 32 || c == 10 || c == 13 || c == 44 }
+//@ spec func isCommentChar(c int) bool { return c != 0 && (c > 0x1F || c == 9) && c != 10 && c != 13 }
+//@ spec func commentEnd(body []byte, i int) int {
+//@     if 0 <= i && i < len(body) && isCommentChar(runeAt_code(body, i)) { return commentEnd(body, i + runeAt_charWidth(body, i)) }
+//@     return i
+//@ }
+//@ spec func ignoredEnd(body []byte, i int) int {
+//@     if 0 <= i && i < len(body) && isIgnoredCode(runeAt_code(body, i)) { return ignoredEnd(body, i + runeAt_charWidth(body, i)) }
+//@     if 0 <= i && i < len(body) && runeAt_code(body, i) == 35 { return ignoredEnd(body, commentEnd(body, i + runeAt_charWidth(body, i))) }
+//@     return i
+//@ }
+
+// ---- assumed contract of the one dependency the lexer's logic rests on -----
+
+//@ extern func unicode/utf8::DecodeRune
+//@   pure
+//@   ensures 0 <= size && size <= 4 && size <= len(p)
+//@   ensures len(p) > 0 ==> size >= 1
+//@   ensures len(p) > 0 && p[0] < 128 ==> r == int(p[0]) && size == 1
+//@   ensures len(p) > 0 && p[0] >= 128 ==> r >= 128 && r <= 1114111
+
+// ---- functions under contract ---------------------------------------------
+
+//@ func runeAt
+//@   props C03 C09 C18
+//@   functional
+//@   assigns nothing
+//@   nopanic
+//@   requires 0 <= position
+//@   ensures position >= len(body) ==> code == -1
+//@   ensures position < len(body) && body[position] < 128 ==> code == int(body[position]) && charWidth == 1
+//@   ensures position < len(body) ==> 1 <= charWidth && charWidth <= 4 && position + charWidth <= len(body) && code >= 0
+//@   ensures position < len(body) && body[position] >= 128 ==> code >= 128
+
+//@ func readName
+//@   props C03 C09 C18
+//@   requires source != nil && 0 <= position && position < len(source.Body)
+//@   requires isNameStart(int(source.Body[position]))
+//@   assigns nothing
+//@   nopanic
+//@   ensures result.Kind == NAME
+//@   ensures result.End - result.Start == nameEnd(source.Body, position+1) - position
+//@   ensures result.Start == position
+//@   ensures result.Value == string(source.Body[position:nameEnd(source.Body, position+1)])
+//@   loop 1 invariant position < endByte && endByte <= len(body) && endRune - runePosition == endByte - position
+//@   loop 1 invariant nameEnd(body, position+1) == nameEnd(body, endByte)
+//@   loop 1 invariant body == source.Body && bodyLength == len(body)
+//@   loop 1 decreases len(body) - endByte
+
+//@ func positionAfterWhitespace
+//@   props C03 C09 C18
+//@   requires 0 <= startPosition
+//@   assigns nothing
+//@   nopanic
+//@   ensures position == ignoredEnd(body, startPosition)
+//@   ensures position >= startPosition
+//@   ensures position <= len(body) || position == startPosition
+//@   ensures (forall i in startPosition..position: body[i] < 128) ==> runePosition == position
+//@   loop 1 invariant bodyLength == len(body) && startPosition <= position && (position <= len(body) || position == startPosition)
+//@   loop 1 invariant ignoredEnd(body, position) == ignoredEnd(body, startPosition)
+//@   loop 1 invariant (forall i in startPosition..position: body[i] < 128) ==> runePosition == position
+//@   loop 1 decreases len(body) - position
+//@   loop 2 invariant bodyLength == len(body) && startPosition < position && position <= len(body) && atloop(1, position) < position
+//@   loop 2 invariant ignoredEnd(body, commentEnd(body, position)) == ignoredEnd(body, startPosition)
+//@   loop 2 invariant (forall i in startPosition..position: body[i] < 128) ==> runePosition == position
+//@   loop 2 decreases len(body) - position
+
+//@ func readDigits
+//@   props C03 C09 C18
+//@   requires s != nil && 0 <= start
+//@   requires firstCode == runeAt_code(s.Body, start) && codeLength == runeAt_charWidth(s.Body, start)
+//@   assigns nothing
+//@   nopanic
+//@   ensures isDigitAt(s.Body, start) ==> result1 == nil && result0 == digitsEnd(s.Body, start)
+//@   ensures !isDigitAt(s.Body, start) ==> result1 != nil
+//@   ensures result1 == nil ==> start < result0 && result0 <= len(s.Body)
+//@   at call NewSyntaxError: assert arg1 == start
+//@   loop 1 invariant body == s.Body && start <= position && position <= len(body)
+//@   loop 1 invariant code == runeAt_code(body, position) && codeLength == runeAt_charWidth(body, position)
+//@   loop 1 invariant digitsEnd(body, position) == digitsEnd(body, start)
+//@   loop 1 decreases len(body) - position
+
+//@ func readNumber
+//@   props C03 C09 C18
+//@   opt split=4
+//@   requires s != nil && 0 <= start && start < len(s.Body)
+//@   requires firstCode == runeAt_code(s.Body, start) && codeLength == runeAt_charWidth(s.Body, start)
+//@   assigns nothing
+//@   nopanic
+//@   ensures numberEnd(s.Body, start) >= 0 ==> result1 == nil && result0.Start == start && result0.End == numberEnd(s.Body, start)
+//@   ensures numberEnd(s.Body, start) >= 0 && numberIsFloat(s.Body, start) ==> result0.Kind == FLOAT
+//@   ensures numberEnd(s.Body, start) >= 0 && !numberIsFloat(s.Body, start) ==> result0.Kind == INT
+//@   ensures numberEnd(s.Body, start) >= 0 ==> result0.Value == string(s.Body[start:numberEnd(s.Body, start)])
+//@   ensures numberEnd(s.Body, start) < 0 ==> result1 != nil
+
+//@ func char2hex
+//@   props C03
+//@   assigns nothing
+//@   nopanic
+//@   ensures '0' <= a && a <= '9' ==> result == a - '0'
+//@   ensures 'A' <= a && a <= 'F' ==> result == a - 'A' + 10
+//@   ensures 'a' <= a && a <= 'f' ==> result == a - 'a' + 10
+//@   ensures !(('0' <= a && a <= '9') || ('A' <= a && a <= 'F') || ('a' <= a && a <= 'f')) ==> result == -1
+
+// ---- string lexemes ---------------------------------------------------------
+
+//@ spec func isEscChar(c int) bool { return c == '"' || c == '/' || c == '\\' || c == 'b' || c == 'f' || c == 'n' || c == 'r' || c == 't' }
+//@ spec func isHexByte(c int) bool { return ('0' <= c && c <= '9') || ('A' <= c && c <= 'F') || ('a' <= c && c <= 'f') }
+// strScan: index of the closing quote of a String lexeme whose content starts at i, or -1 when malformed.
+//@ spec func strScan(body []byte, i int) int {
+//@     if !(0 <= i && i < len(body)) { return -1 }
+//@     c := runeAt_code(body, i)
+//@     w := runeAt_charWidth(body, i)
+//@     if c == '"' { return i }
+//@     if c == 10 || c == 13 { return -1 }
+//@     if c < 32 && c != 9 { return -1 }
+//@     if c != '\\' { return strScan(body, i + w) }
+//@     e := runeAt_code(body, i + w)
+//@     if isEscChar(e) { return strScan(body, i + w + runeAt_charWidth(body, i + w)) }
+//@     if e == 'u' && len(body) > i + w + 4 && isHexByte(int(body[i+w+1])) && isHexByte(int(body[i+w+2])) && isHexByte(int(body[i+w+3])) && isHexByte(int(body[i+w+4])) { return strScan(body, i + w + 5) }
+//@     return -1
+//@ }
+// blockScan: index of the closing triple quote of a BlockString whose content starts at i, or -1.
+//@ spec func blockScan(body []byte, i int) int {
+//@     if !(0 <= i && i < len(body)) { return -1 }
+//@     c := runeAt_code(body, i)
+//@     if c == '"' && runeAt_code(body, i+1) == '"' && runeAt_code(body, i+2) == '"' { return i }
+//@     if c < 32 && c != 9 && c != 10 && c != 13 { return -1 }
+//@     if c == '\\' && runeAt_code(body, i+1) == '"' && runeAt_code(body, i+2) == '"' && runeAt_code(body, i+3) == '"' { return blockScan(body, i + 4) }
+//@     return blockScan(body, i + runeAt_charWidth(body, i))
+//@ }
+
+//@ func uniCharCode
+//@   props C03
+//@   assigns nothing
+//@   nopanic
+//@   requires 0 <= a && a <= 255 && 0 <= b && b <= 255 && 0 <= c && c <= 255 && 0 <= d && d <= 255
+//@   ensures (isHexByte(a) && isHexByte(b) && isHexByte(c) && isHexByte(d)) ==> 0 <= result && result <= 65535
+//@   ensures !(isHexByte(a) && isHexByte(b) && isHexByte(c) && isHexByte(d)) ==> result < 0
+
+//@ func blockStringValue
+//@   trusted
+//@   pure
+
+//@ func readString
+//@   props C03 C09 C18
+//@   opt split=3
+//@   requires s != nil && 0 <= start && start < len(s.Body) && s.Body[start] == '"'
+//@   assigns nothing
+//@   nopanic
+//@   ensures strScan(s.Body, start+1) >= 0 ==> result1 == nil && result0.Kind == STRING && result0.Start == start && result0.End == strScan(s.Body, start+1) + 1
+//@   ensures strScan(s.Body, start+1) < 0 ==> result1 != nil
+//@   loop 1 invariant body == s.Body && start < chunkStart && chunkStart <= position && position <= len(body)
+//@   loop 1 invariant strScan(body, position) == strScan(body, start+1)
+//@   loop 1 invariant (forall i in start+1..position: body[i] < 128) ==> runePosition == position
+//@   loop 1 decreases len(body) - position
+
+//@ func readBlockString
+//@   props C03 C09 C18
+//@   opt split=3
+//@   requires s != nil && 0 <= start && start + 3 <= len(s.Body)
+//@   assigns nothing
+//@   nopanic
+//@   ensures blockScan(s.Body, start+3) >= 0 ==> result1 == nil && result0.Kind == BLOCK_STRING && result0.Start == start && result0.End == blockScan(s.Body, start+3) + 3
+//@   ensures blockScan(s.Body, start+3) < 0 ==> result1 != nil
+//@   loop 1 invariant body == s.Body && start + 3 <= chunkStart && chunkStart <= position && position <= len(body)
+//@   loop 1 invariant blockScan(body, position) == blockScan(body, start+3)
+//@   loop 1 decreases len(body) - position
